@@ -46,9 +46,9 @@ TRUSTED = ['scipy.stats.t.cdf (the Student-t CDF is an input of the model, '
            'rationals)',
            'h5py read-back of the written tables']
 ASSUMPTIONS = ['raw p-values lie in [0, 1] (hypothesis of the Holm theorems)',
-               'floors are >= 0 and each strict threshold exceeds its floor '
-               'by at least 1e-5 (the implementation treats distance_sq < '
-               '1e-10 as exactly valid; see finding floor-bypassed-by-eps)',
+               'floors are >= 0 (theorem hypothesis FloorsExclude: a gene '
+               'outside the gene list is given the scores -1, 0, -1 and must '
+               'fall below some floor)',
                'by-gene table = transpose of by-pair table is checked on the '
                'files, the transposition algorithm itself belongs to C13',
                'soundness of the boring_t shortcut is compared numerically '
@@ -556,6 +556,197 @@ def check_sparse_merge(ctx, rng, rows_up=None, rows_down=None, n_per=None,
                 corr_violation(ctx, 'sparse', 'CTM.RefMarkers.mergeSparse ~ '
                                '_merge_sparse_by_pair_files', detail)
                 return
+
+
+# ---------------------------------------------------------------------------
+# unit: _get_validity_mask
+# ---------------------------------------------------------------------------
+
+def check_validity_mask(ctx, rng, case=None):
+    from cell_type_mapper.diff_exp.p_value_markers import _get_validity_mask
+    if case is None:
+        G = rng.choice([1, 2, 5, 12, 30, 45])
+        k = rng.randint(0, G)
+        idx = sorted(rng.sample(range(G), k))
+        pool = [-1.0, -1.0, 0.001, 0.001, 0.25, 0.5, 2.0, 65500.0]
+        dat = [float(np.float16(rng.choice(pool) if rng.random() < 0.6
+                                else rng.random() * rng.choice([0.01, 1, 50])))
+               for _ in idx]
+        n_valid = rng.choice([0, 1, 2, 3, 5, 30, G, G + 3])
+        if rng.random() < 0.5:
+            gene_idx = None
+        else:
+            gene_idx = sorted(rng.sample(range(G), rng.randint(1, G)))
+        case = {'kind': 'validity_mask', 'n_genes': G, 'idx': idx,
+                'data': dat, 'n_valid': n_valid, 'gene_idx': gene_idx}
+    G, idx, dat = case['n_genes'], case['idx'], case['data']
+    n_valid, gene_idx = case['n_valid'], case['gene_idx']
+    ctx.case(('vm', json.dumps(case)) if G >= 3 and idx else None, sample=None)
+    ctx.count('validity-mask')
+    try:
+        got = _get_validity_mask(
+            n_valid=n_valid, n_genes=G,
+            gene_indices=np.array(idx, dtype=np.int64),
+            raw_distances=np.array(dat, dtype=np.float16).astype(float),
+            valid_gene_idx=None if gene_idx is None
+            else np.array(gene_idx, dtype=np.int64))
+        got = [bool(x) for x in got]
+        err = None
+    except Exception as e:      # noqa
+        got = None
+        err = type(e).__name__
+    allowed = set(range(G)) if gene_idx is None else set(gene_idx)
+    if got is None:
+        ctx.violation('C11/validity-mask/raises/' + err,
+                      '_get_validity_mask raises %s on a well-formed row'
+                      % err, case)
+        return
+    rec = set(g for g in range(G) if got[g])
+    elig = set(idx) & allowed
+    strict = set(g for g, x in zip(idx, dat) if x == -1.0) & allowed
+    if not rec <= elig:
+        ctx.violation('C11/validity-mask/sound', 'a gene outside the mask '
+                      'row or the gene list is recorded', case)
+        return
+    if not strict <= rec:
+        ctx.violation('C11/validity-mask/complete', 'a gene stored with '
+                      'distance -1 is not recorded', case)
+        return
+    if len(rec) < min(n_valid, len(elig)):
+        ctx.violation('C11/validity-mask/too-few', 'fewer genes than '
+                      'min(n_valid, eligible) are recorded', case)
+        return
+    if ctx.driver_ok:
+        vm = ctx.model('refmarkers.validityFromMask', {
+            'nValid': n_valid, 'nGenes': G,
+            'row': [[g, jfr(x)] for g, x in zip(idx, dat)],
+            'geneIdx': gene_idx})
+        if vm.get('ok') != got:
+            corr_violation(ctx, 'validityFromMask', 'CTM.RefMarkers.'
+                           'getValidityMask ~ _get_validity_mask',
+                           dict(case, impl=got, model=vm))
+
+
+# ---------------------------------------------------------------------------
+# unit: score_differential_genes on a synthetic statistics dict
+# ---------------------------------------------------------------------------
+
+def check_score_unit(ctx, rng, case=None):
+    """many cheap cases for the relaxation pass, n_cells_min, n_valid_min,
+    valid_gene_idx (no files, no sub-processes)"""
+    from cell_type_mapper.diff_exp.scores import score_differential_genes
+    import scipy.stats
+    if case is None:
+        th = ru.random_thresholds(rng)
+        prob = ru.StatsProblem(rng, n_leaves=2,
+                               n_genes=rng.choice([1, 2, 4, 9, 16, 33]),
+                               th=th, two_level=False)
+        G = len(prob.genes)
+        case = {'kind': 'score_unit', 'problem': prob.to_json(),
+                'exact': rng.random() < 0.25,
+                'n_valid': rng.choice([0, 1, 2, 4, 30, G]),
+                'n_valid_min': rng.choice([0, 1, 3, 10, 10, G + 1]),
+                'n_cells_min': rng.choice([2, 2, 2, 1, 5]),
+                'gene_idx': None if rng.random() < 0.5 else
+                sorted(rng.sample(range(G), rng.randint(1, G)))}
+    prob = ru.StatsProblem(None, data=case['problem'])
+    th = prob.th
+    a, b = sorted(prob.leaves)
+    G = len(prob.genes)
+    stats = {}
+    for l in (a, b):
+        n = prob.n[l]
+        s = prob.mean[l] * n
+        ss = prob.var[l] * max(1, n - 1) + s ** 2 / max(1, n)
+        stats[l] = {'n_cells': n, 'mean': s / max(1, n),
+                    'var': (ss - s ** 2 / max(1, n)) / max(1, n - 1),
+                    'ge1': prob.ge1[l].copy()}
+    from cell_type_mapper.utils.stats_utils import boring_t_from_p_value
+    bt = boring_t_from_p_value(th['p_th'])
+    gi = case['gene_idx']
+    try:
+        with np.errstate(all='ignore'):
+            _, valid, up = score_differential_genes(
+                node_1=a, node_2=b, precomputed_stats=stats,
+                boring_t=bt, big_nu=None, exact_penetrance=case['exact'],
+                n_valid=case['n_valid'], n_valid_min=case['n_valid_min'],
+                n_cells_min=case['n_cells_min'],
+                valid_gene_idx=None if gi is None else np.array(gi),
+                **th)
+        valid = [bool(x) for x in valid]
+        up = [bool(x) for x in up]
+    except Exception as e:      # noqa
+        ctx.violation('C11/score-unit/raises/' + type(e).__name__,
+                      'score_differential_genes raises %r' % e, case)
+        return
+    # oracle: unshortcut Welch p
+    m1, v1, n1 = stats[a]['mean'], stats[a]['var'], stats[a]['n_cells']
+    m2, v2, n2 = stats[b]['mean'], stats[b]['var'], stats[b]['n_cells']
+    with np.errstate(all='ignore'):
+        se2 = v1 / n1 + v2 / n2
+        se = np.sqrt(se2)
+        se = np.where(se > 0.0, se, 1.0e-10)
+        t = (m1 - m2) / se
+        den = (v1 ** 2) / (n1 ** 3 - n1 ** 2) + (v2 ** 2) / (n2 ** 3 - n2 ** 2)
+        den = np.where(den > 0.0, den, 1.0)
+        nu = se2 * se2 / den
+        cdf = scipy.stats.t.cdf(t, df=nu)
+        cdf = np.where(np.isfinite(cdf), cdf, 0.5)
+        fi = np.finfo(float)
+        cdf = np.clip(cdf, fi.smallest_normal, 1.0 - fi.epsneg)
+        p = np.where(cdf < 0.5, 2.0 * cdf, 2.0 * (1.0 - cdf))
+    holm = ru.textbook_holm([fr(x) for x in p])
+    thx = th_frac(th)
+    p1 = stats[a]['ge1'] / max(1, n1)
+    p2 = stats[b]['ge1'] / max(1, n2)
+    q1 = np.where(p1 > p2, p1, p2)
+    dn = np.where(q1 > 0.0, q1, 1.0)
+    qd = np.abs(p1 - p2) / dn
+    fd = np.abs(m1 - m2)
+    allowed = set(range(G)) if gi is None else set(gi)
+    big = n1 >= case['n_cells_min'] and n2 >= case['n_cells_min']
+    p_amb = any(near(h, thx['p_th']) for h in holm)
+    ctx.case(('su', json.dumps(case, sort_keys=True)) if G >= 2 else None,
+             sample=None)
+    ctx.count('score-unit')
+    for g in range(G):
+        if near(holm[g], thx['p_th']):
+            continue
+        f_ok = floors_ok(th, float(q1[g]), float(qd[g]), float(fd[g]))
+        s_ok = strict_ok(th, float(q1[g]), float(qd[g]), float(fd[g]))
+        pok = holm[g] < thx['p_th']
+        if valid[g] and not (big and pok and f_ok and g in allowed and
+                             (s_ok or not case['exact'])):
+            ctx.violation('C11/score-unit/sound', 'gene %d is valid but '
+                          'fails a criterion' % g, dict(case, gene=g))
+            return
+        if not valid[g] and big and pok and s_ok and g in allowed:
+            ctx.violation('C11/score-unit/complete', 'gene %d passes every '
+                          'strict criterion but is not valid' % g,
+                          dict(case, gene=g))
+            return
+        if up[g] != bool(m2[g] > m1[g]) and big:
+            ctx.violation('C11/score-unit/direction', 'up flag of gene %d is '
+                          'not mean2 > mean1' % g, dict(case, gene=g))
+            return
+    if ctx.driver_ok:
+        out = ctx.model('refmarkers.score', {
+            'th': ru.th_json(th), 'q1': jfrs(q1), 'qdiff': jfrs(qd),
+            'fold': jfrs(fd), 'praw': jfrs(p), 'n1': int(n1), 'n2': int(n2),
+            'exact': case['exact'], 'nValid': case['n_valid'],
+            'nValidMin': case['n_valid_min'],
+            'nCellsMin': case['n_cells_min'], 'geneIdx': gi,
+            'mean1': jfrs(m1), 'mean2': jfrs(m2)})
+        if 'err' in out or out['ok']['valid'] != valid or \
+                out['ok']['up'] != up:
+            if 'ok' in out and (p_amb or near_tie_explains(th, q1, qd, fd)):
+                ctx.count('score-unit:near-tie-tolerated')
+                return
+            # boring_t may only differ from the model through the shortcut
+            corr_violation(ctx, 'score-unit', 'CTM.RefMarkers.scoreCoreWith ~'
+                           ' score_differential_genes',
+                           dict(case, impl_valid=valid, impl_up=up,
+                                model=out))
 
 
 # ---------------------------------------------------------------------------
@@ -1119,8 +1310,12 @@ def run(ctx):
         check_distance(ctx, th, q1, qd, fd, label='malformed')
     for _ in range(10 if quick else 80):
         check_sparse_merge(ctx, rng)
+    for _ in range(150 if quick else 1500):
+        check_validity_mask(ctx, rng)
+    for _ in range(120 if quick else 1500):
+        check_score_unit(ctx, rng)
     # ---- file layer --------------------------------------------------------
-    n_files = 24 if quick else 400
+    n_files = 24 if quick else 320
     for k in range(n_files):
         prob, cfg = gen_file_case(rng, ctx.tier)
         run_file_case(ctx, prob, cfg)
@@ -1147,6 +1342,13 @@ def replay(ctx, data, from_corpus=False):
     elif kind == 'file':
         prob = ru.StatsProblem(None, data=d['problem'])
         run_file_case(ctx, prob, d['cfg'], label='replay')
+    elif kind == 'validity_mask':
+        check_validity_mask(ctx, ctx.rng, d)
+    elif kind == 'score_unit':
+        check_score_unit(ctx, ctx.rng, {k: v for k, v in d.items()
+                                        if k in ('kind', 'problem', 'exact',
+                                                 'n_valid', 'n_valid_min',
+                                                 'n_cells_min', 'gene_idx')})
     elif kind == 'ttnu':
         pass
     elif not from_corpus:
